@@ -143,7 +143,7 @@ def same_rules(a, b):
 def evaluate(rows, model_ok, want, exact_nest_paths=False):
     """Compare implementation, model and Spec on every scenario. `want`: set of aspects."""
     out = {"gen_fail": [], "unknown": [], "struct": [], "build": [], "gofmt": [], "sem": [], "spec": [], "is": [], "wrappers": [],
-           "ctx": [], "ctx_model": [], "nilrecv": [], "mut": [], "alloc": [], "panic": [], "undef": 0, "nvalues": 0, "ndecls": len(rows),
+           "ctx": [], "ctx_model": [], "ctx_tie": [], "nilrecv": [], "mut": [], "alloc": [], "panic": [], "undef": 0, "nvalues": 0, "ndecls": len(rows),
            "nfiles": 0, "dist": {}}
     dist = out["dist"]
 
@@ -213,7 +213,9 @@ def evaluate(rows, model_ok, want, exact_nest_paths=False):
         for r, a in zip(poll_rows, C.drive("specdrv", ["polls\t" + (r.get("spec_sexp") or r["decl_sexp"]) for r in poll_rows])):
             spec_polls[(r["scenario"], r["decl"])] = int(a)
             if int(a) != r.get("polls", 0):
-                out["ctx"].append((r, "-", "polls", "implementation polls %d times" % r.get("polls", 0), "-", "one cancellation point per validated field: %s" % a, a))
+                # the STRUCTURE of the output is not the modelled one (another poll form, another number of polls): a broken tie;
+                # whether the contract fails is decided behaviourally below, by what the instrumented context observed
+                out["ctx_tie"].append((r, "-", "polls", "the structural dump recognises %d polls of the modelled form" % r.get("polls", 0), "-", "one cancellation point per validated field: %s" % a, a))
     for (ri, vi), sa, pa in zip(idx, sem_ans, spec_ans):
         r = rows[ri]
         o = r["obs"][vi]
@@ -261,13 +263,20 @@ def evaluate(rows, model_ok, want, exact_nest_paths=False):
                 K = int(k[3:-1])
                 kind = "canceled" if k[-1] == "c" else "deadline"
                 got, calls = val.rsplit("#", 1)
-                exp = ("ctx:" + kind) if K < P else o          # C15, stated outright
-                exp_calls = (K + 2) if K < P else P
+                # C15, stated outright and independently of the form of the poll: the context returns nil to its first K Err()
+                # calls and the error from then on, so the run OBSERVED it done iff it made more than K calls. Observed => exactly
+                # that error; not observed => the result of Validate(); and with one cancellation point per validated field
+                # (P of them, the Spec's count) every K < P must be observed.
+                observed = int(calls) > K
+                exp = ("ctx:" + kind) if (observed or K < P) else o
+                exp_calls = (K + 2) if K < P else P          # the MODEL's number of calls (poll form `if ctx.Err() != nil { return ctx.Err() }`)
                 bump("ctx:" + ("cancelled" if K < P else "undisturbed"))
                 if got == "panic":
                     out["panic"].append((r, v, k))
-                if not same_report(got, exp) or int(calls) != exp_calls:
-                    out["ctx"].append((r, v, k, got, calls, exp, exp_calls))
+                if not same_report(got, exp):
+                    out["ctx"].append((r, v, k, got, calls, exp, "observed done" if observed else ("not observed although %d cancellation points are due" % P if K < P else "not observed")))
+                elif int(calls) != exp_calls:
+                    out["ctx_tie"].append((r, v, k, got, calls, exp, exp_calls))
                 if model_ok:
                     ctx_reqs.append("sem\t%s\t%d:%s\t%s" % (r["decl_sexp"], K, kind, v))
                     ctx_exp.append((r, v, k, got))
@@ -322,7 +331,7 @@ def report(res, ev, broken, aspects, known_match=None):
             return obs is None or (not isinstance(item, dict) and any(obs in str(x) for x in item[1:]))
     # declarations of known findings deviate by definition: they are not evidence against the model either
     known_decls = set(k.get("match", {}).get("decl_sexp") for k in C.load_known().get("findings", []))
-    for key in ("struct", "sem", "ctx_model"):
+    for key in ("struct", "sem", "ctx_model", "ctx_tie"):
         ev[key] = [x for x in ev.get(key, []) if x[0]["decl_sexp"] not in known_decls]
     concrete = []
     for a in aspects:
@@ -362,6 +371,16 @@ def report(res, ev, broken, aspects, known_match=None):
     if ev["ctx_model"] and "ctx" in aspects:
         r, v, k, got, a = ev["ctx_model"][0]
         ties.append(("corr-sem-ctx", "model and compiled output disagree under %s on %s/%s: impl %s model %s" % (k, r["scenario"], r["decl"], got[:200], a[:200])))
+    if ev.get("unknown") and "ctx" in aspects and "unknown" not in aspects:
+        # C15: an output with statement forms outside the modelled template is not covered by the theorems (a broken tie); whether
+        # the context contract fails on it is decided by the behavioural comparison above
+        r = ev["unknown"][0]
+        ties.append(("corr-gen-forms", "the output of %s/%s has statement forms outside the modelled template (%d decls): %s" % (
+            r["scenario"], r["decl"], len(ev["unknown"]), " | ".join(str(u)[:300] for u in (r.get("unknown") or [])[:3]))))
+    if ev.get("ctx_tie") and "ctx" in aspects:
+        x = ev["ctx_tie"][0]
+        r = x[0]
+        ties.append(("corr-sem-ctx-calls", "the output of %s/%s is not of the modelled poll form (%d cases): %s" % (r["scenario"], r["decl"], len(ev["ctx_tie"]), " | ".join(str(y)[:200] for y in x[1:]))))
     allb = list(broken) + ties
     if allb:
         res.violation("unproved", {"kind": "unproved", "broken": [{"what": b[0], "detail": b[1][-4000:]} for b in allb],
